@@ -312,6 +312,8 @@ def r9_anchored(ctx, modules, rule='R9', floor=1, name_test_only=True):
                         uses.extend(_pattern_uses(ctx, fi, nm))
         test_uses = [(a, x) for a, x in uses if a in ('match', 'search', 'fullmatch')]
         bad = [(a, x) for a, x in test_uses if a != 'fullmatch']
+        if holder is not None and uses and not test_uses and all(a in ('sub', 'subn', 'split', 'findall', 'finditer') for a, x in uses):
+            continue     # a compiled pattern only ever used for substitution / extraction is not a name test
         if holder is None or not test_uses:
             raise AnalysisError('%s: cannot follow the uses of unanchored pattern %s' % (where(ctx.repo, c), u(c)))
         run.check(not bad, rule, where(ctx.repo, c), fi.qualname, c,
